@@ -231,6 +231,11 @@ FIXED += [
      c06("subroutine s\n  pointer (p, ), (q, b(10))\nend subroutine s\n")),
 ]
 
+FIXED += [
+    ("C18", "file-reader:deepcopy-raises:TypeError", "512c569", "copy.deepcopy and pickle raised TypeError (cannot pickle 'TextIOWrapper') for every tree whose items came from a FortranFileReader: a file parsed directly, or a resolved INCLUDE line",
+     {"mode": "source", "std": "f2003", "ci": 1, "rk": "include", "text": "program p\n  a = 1\n  include 'vf_c18.inc'\n  b = 2\nend program p\n"}),
+]
+
 OPEN = [
     ("C01", "format-c1002-node-not-reproduced", "a scale factor directly followed by a data edit descriptor ('1p e12.4') is held in a Format_Item_C1002 node but printed with a comma ('1P, E12.4'), so the re-parsed tree has two list items instead: the tree is not structurally identical after the round trip (the comma is asserted by test_format_specification_r1002.py)",
      {"mode": "source", "std": "f2003", "ic": True, "text": "subroutine s\n10 format (1p e12.4, i3)\nend subroutine s\n"}),
